@@ -375,36 +375,62 @@ pub struct SutSpec {
     pub backend: BackendKind,
     /// new `SqliteStorage` + `Server` before every request
     pub reopen_each: bool,
+    /// HTTP entry with an allow-list naming every client of the exploration (C16's twin)
+    pub allow_all: bool,
 }
 
 pub const MEM_LIB: SutSpec = SutSpec {
     entry: Entry::Lib,
     backend: BackendKind::Mem,
     reopen_each: false,
+    allow_all: false,
 };
 pub const SQL_LIB: SutSpec = SutSpec {
     entry: Entry::Lib,
     backend: BackendKind::Sql,
     reopen_each: false,
+    allow_all: false,
 };
 pub const SQL_LIB_REOPEN: SutSpec = SutSpec {
     entry: Entry::Lib,
     backend: BackendKind::Sql,
     reopen_each: true,
+    allow_all: false,
 };
 pub const MEM_HTTP: SutSpec = SutSpec {
     entry: Entry::Http,
     backend: BackendKind::Mem,
     reopen_each: false,
+    allow_all: false,
 };
 pub const SQL_HTTP: SutSpec = SutSpec {
     entry: Entry::Http,
     backend: BackendKind::Sql,
     reopen_each: false,
+    allow_all: false,
+};
+
+pub const MEM_HTTP_ALLOW: SutSpec = SutSpec {
+    entry: Entry::Http,
+    backend: BackendKind::Mem,
+    reopen_each: false,
+    allow_all: true,
+};
+pub const SQL_HTTP_ALLOW: SutSpec = SutSpec {
+    entry: Entry::Http,
+    backend: BackendKind::Sql,
+    reopen_each: false,
+    allow_all: true,
 };
 
 impl SutSpec {
     pub fn name(&self) -> &'static str {
+        if self.allow_all {
+            return match self.backend {
+                BackendKind::Mem => "MemHttpAllow",
+                BackendKind::Sql => "SqlHttpAllow",
+            };
+        }
         match (self.entry, self.backend, self.reopen_each) {
             (Entry::Lib, BackendKind::Mem, _) => "MemLib",
             (Entry::Lib, BackendKind::Sql, false) => "SqlLib",
@@ -420,6 +446,10 @@ impl SutSpec {
     pub fn is_sql(&self) -> bool {
         self.backend == BackendKind::Sql
     }
+}
+
+pub fn spec_from_name(n: &str) -> Option<SutSpec> {
+    [MEM_LIB, SQL_LIB, SQL_LIB_REOPEN, MEM_HTTP, SQL_HTTP, MEM_HTTP_ALLOW, SQL_HTTP_ALLOW].into_iter().find(|s| s.name() == n)
 }
 
 pub fn server_config(cfg: Config) -> ServerConfig {
@@ -1122,8 +1152,13 @@ pub struct SymSut {
 
 impl SymSut {
     pub fn new(spec: SutSpec, cfg: Config, seed: u64, n_clients: u8) -> SymSut {
+        let allow: Option<HashSet<Uuid>> = if spec.allow_all {
+            Some((0..n_clients).map(|c| client_uuid(seed, c)).collect())
+        } else {
+            None
+        };
         SymSut {
-            sut: Sut::new(spec, cfg),
+            sut: Sut::with(spec, cfg, allow, Arc::new(NoProbe)),
             tab: SymTab::new(seed),
             seed,
             n_clients,
